@@ -203,6 +203,18 @@ CLAIMED = {
          'are recognised by their exact failure signature; any wrong *value* is always a violation.',
     technique='TLA+ expression semantics + renderer (TLC enumeration), replay of every spelling through both evaluation paths',
     ref='6/C05'),
+
+ 'C15': dict(
+    text='(A) spec/Replace.tla: the character scanner of parser.replace (layer P) against token-wise substitution (layer M) for every '
+         'equation of <= 3 (4) tokens over identifiers that contain one another (r, rr, r_in, m_in, m_in2, x, x_v1, in) and every '
+         'term - TLC invariant ReplaceIsWholeIdentifier, every pair replayed on parser.replace; (B) programs of spec/Wiring.tla built '
+         'with the Python classes, saved with to_yaml, caches cleared, loaded with from_yaml (flat / hierarchical, edge templates, '
+         'vectorize on/off, saved twice): the probed field of the loaded circuit must equal Denote; (C) operators derived through '
+         'YAML base: with replace / remove / append edits must be the token-wise edit and leave the base untouched.',
+    note='Round trips use one operator object per node: per-node overrides of a shared operator are known findings D54 / D55 (pinned, loud); '
+         'D23 (template cache keyed by path) is an assumption of from_yaml.',
+    technique='TLA+ scanner-vs-token refinement (TLC exhaustive), replay of every pair; denotational round-trip check through real YAML files',
+    ref='6/C15'),
 }
 
 NOT_YET = 'check not built yet in this round (planned in DESIGN.md section 6); not claimed'
